@@ -238,6 +238,12 @@ class Scheduler:
                 t.sem.release()
         self._done.set()
 
+    def stop(self, reason='stopped'):
+        """end the run from inside a managed thread (e.g. the program under test called sys.exit while daemon threads
+        are still looping): every other thread is unwound with SchedAbort; the caller simply returns afterwards"""
+        if not self.aborting:
+            self._abort(reason)
+
     # ---- API for primitives
     def yield_(self, label):
         me = self.me()
@@ -349,6 +355,15 @@ class _ThreadHandle:
 
     def setDaemon(self, flag):
         self.daemon = flag
+
+    # added for C11: `self._connthread == current_thread()` must compare the threads, not the handles
+    def __eq__(self, other):
+        if isinstance(other, _ThreadHandle):
+            return self.ts is not None and self.ts is other.ts or self is other
+        return NotImplemented
+
+    def __hash__(self):
+        return id(self.ts) if self.ts is not None else id(self)
 
     @property
     def ident(self):
